@@ -19,10 +19,14 @@ void muggle_synclock_lock(muggle_sync_t *synclock)
 	muggle_sync_t expected = MUGGLE_SYNCLOCK_STATUS_UNLOCK;
 	while (!muggle_atomic_cmp_exch_weak(
 		synclock, &expected, MUGGLE_SYNCLOCK_STATUS_LOCK,
-		muggle_memory_order_acquire)
-		&& expected != MUGGLE_SYNCLOCK_STATUS_UNLOCK)
+		muggle_memory_order_acquire))
 	{
-		muggle_sync_wait(synclock, expected, NULL);
+		// a weak compare-exchange may fail spuriously and leave expected
+		// unchanged: only sleep when the lock was really held, always retry
+		if (expected != MUGGLE_SYNCLOCK_STATUS_UNLOCK)
+		{
+			muggle_sync_wait(synclock, expected, NULL);
+		}
 		expected = MUGGLE_SYNCLOCK_STATUS_UNLOCK;
 	}
 }
